@@ -274,6 +274,7 @@ func init() {
 	multiBfsCheck("C11", []part{
 		{"nns-auth", func() Driver { return NewNNSDriver("C11") }, 3, 5, 120, 1000},
 		{"nns-auth-even-committee", func() Driver { d := NewNNSDriver("C11even"); d.N = 4; return d }, 3, 4, 30, 100},
+		{"nns-auth-midlevel-expiry", func() Driver { return NewNNSDriver("C11m") }, 3, 4, 60, 300},
 	}, nil)
 	multiBfsCheck("C12", []part{
 		{"nns-records", func() Driver { return NewNNSDriver("C12r") }, 3, 5, 80, 600},
@@ -491,7 +492,9 @@ func init() {
 	}
 	comboCheckT("C08", "netmap-history", func(tier string) func() Driver {
 		if tier == "thorough" {
-			return func() Driver { return NewSnapDriver([]int{0, 1, 2, 3, 4, 5, 6, 7, 8, 9, 10, 11, 12, 255, 256, 257, 266}, 30, 2) }
+			return func() Driver {
+				return NewSnapDriver([]int{0, 1, 2, 3, 4, 5, 6, 7, 8, 9, 10, 11, 12, 255, 256, 257, 266}, 30, 2)
+			}
 		}
 		return func() Driver { return NewSnapDriver([]int{0, 1, 2, 3, 5, 9, 10, 11, 12, 255, 256, 266}, 14, 2) }
 	}, 16, 32, 60, 300, []func() GridDriver{func() GridDriver { return NewLongHistoryGrid() }}, 2, 6, nil)
